@@ -90,4 +90,38 @@ theorem C12_rel_24h_counterexample :
 /-- …and the same phrase on the current source: 24 elapsed hours -/
 example : (parseRel fallBack { wall := 0, off := 7200 } 1 { hours := 24 }).instant = ({ wall := 0, off := 7200 } : Aware).instant + 24 * 3600 := by decide
 
+
+/-! ## zones of the standard library (TIMEZONE='local') -/
+
+/-- generated fact: the branch for non-pytz zones corrects the wall clock by the change of offset -/
+theorem fresh_wallzone_source : Gen.freshLocalZoneCorrects = true := by decide
+
+/-- **C12_rel_clock_exact_local**: in a standard-library zone the clock part is elapsed time as well — the instant after the shift is the instant
+    of the (calendar-shifted) wall clock plus the clock part — provided the corrected wall clock lies on the same side of the change as the
+    uncorrected one (it does unless the phrase lands within the changed hour itself) -/
+theorem C12_rel_clock_exact_local (z : WallZone) (nowWall : Int) (sign : Int) (cal clock : Nat)
+    (hside : z.offOfWall (nowWall + sign * (cal * 86400) + sign * clock
+              + (z.offOfWall (nowWall + sign * (cal * 86400) + sign * clock) - z.offOfWall (nowWall + sign * (cal * 86400))))
+             = z.offOfWall (nowWall + sign * (cal * 86400) + sign * clock)) :
+    (shiftWall z Gen.freshLocalZoneCorrects nowWall sign cal clock).instant
+      = (nowWall + sign * (cal * 86400) - z.offOfWall (nowWall + sign * (cal * 86400))) + sign * clock := by
+  rw [fresh_wallzone_source]
+  unfold shiftWall
+  simp only [Bool.true_and]
+  split
+  · simp only [Aware.instant]; rw [hside]; omega
+  · rename_i h
+    have : z.offOfWall (nowWall + sign * (cal * 86400) + sign * clock) = z.offOfWall (nowWall + sign * (cal * 86400)) := by
+      simpa using h
+    simp only [Aware.instant]; omega
+
+/-- a standard-library zone whose clocks go forward one hour at wall clock 7200 (offset −5h before, −4h from 03:00 on; the hour from 7200 is skipped) -/
+def springForward : WallZone := { offOfWall := fun w => if w < 7200 then -18000 else -14400 }
+
+/-- **C12_rel_local_counterexample**: without the correction '2 hours ago' at 03:30 on that morning is one elapsed hour -/
+theorem C12_rel_local_counterexample :
+    (shiftWall springForward false 12600 (-1) 0 7200).instant = (12600 - (-14400)) - 1 * 3600 := by decide
+
+example : (shiftWall springForward true 12600 (-1) 0 7200).instant = (12600 - (-14400)) - 2 * 3600 := by decide
+
 end DP.Zone
